@@ -78,9 +78,11 @@ def _zdebug_consts(fn):
     for n in ast.walk(fn):
         if isinstance(n, ast.Compare) and len(n.ops) == 1 and len(n.comparators) == 1:
             c = n.comparators[0]
-            if isinstance(n.ops[0], ast.Eq) and isinstance(c, ast.Constant) and isinstance(c.value, bytes):
+            # `x == b'ZLIB'` (asserted) or `x != b'ZLIB'` (raising): the same constant
+            if isinstance(n.ops[0], (ast.Eq, ast.NotEq)) and isinstance(c, ast.Constant) and isinstance(c.value, bytes):
                 magic = c.value
-            if isinstance(n.ops[0], ast.Gt) and isinstance(n.left, ast.Attribute) and n.left.attr == 'size' \
+            # `size > N` (asserted) or `size <= N` (raising): the same bound
+            if isinstance(n.ops[0], (ast.Gt, ast.LtE)) and isinstance(n.left, ast.Attribute) and n.left.attr == 'size' \
                     and isinstance(c, ast.Constant) and isinstance(c.value, int):
                 bound = c.value
         if isinstance(n, ast.Call) and isinstance(n.func, ast.Attribute) and n.func.attr == 'unpack' \
